@@ -54,6 +54,13 @@ def generate(rng, seed, index, tier):
         kw["scaling_type"] = "Custom"
         kw["scaling"] = {"var": rng.integers(-2, 3, size=spec["n"]).tolist(), "cons": rng.integers(-2, 3, size=spec["m"]).tolist(), "obj": int(rng.integers(-1, 2))}
     kw = gen.quiet_params(kw)
+    clock = None
+    if rng.random() < 0.15:
+        # a deadline, and callback evaluations that take (virtual) time: the check's own evaluations must not
+        # eat into the time budget of the solve
+        kw["time_limit"] = float(rng.choice([0.2, 0.6, 2.0]))
+        kw["iteration_limit"] = int(rng.integers(8, 40))
+        clock = {"t0": gen.T0, "steps": [], "tail": 0.0, "per_eval": 0.01}
     plans = []
     for _ in range(6):
         comp = str(rng.choice(["grad", "jac", "hess"]))
@@ -62,7 +69,7 @@ def generate(rng, seed, index, tier):
         row = 0 if comp == "grad" else int(rng.integers(0, spec["m"] if comp == "jac" else spec["n"]))
         col = int(rng.integers(0, spec["n"]))
         plans.append({"comp": comp, "row": row, "col": col, "mult": float(rng.choice([1.5, 3.0, 10.0, 1e3])), "sign": int(rng.choice([-1, 1])), "sub": bool(rng.random() < 0.2), "drop": bool(rng.random() < 0.25)})
-    return gen.base_world(seed, ID, index, spec, x0, y0, kw, case={"plans": plans})
+    return gen.base_world(seed, ID, index, spec, x0, y0, kw, clock=clock, case={"plans": plans})
 
 
 def _internal_entry_and_shift(rt, comp, row, col, xi, yi):
